@@ -691,7 +691,7 @@ class DAG(BaseDAG[P, RVDAG]):
         Raises:
             TawaziUsageError: kwargs are passed
         """
-        description_context = node.exec_nodes_lock.locked()
+        description_context = node.in_description_context()
         if kwargs:
             # is_active is only allowed when describing a SubDAG
             if not description_context or set(kwargs.keys()) != {ARG_NAME_ACTIVATE}:
